@@ -4,6 +4,8 @@
    recorder under strace: namespace-operation traces and SIGKILL at every system call. *)
 From Coq Require Import String List ZArith Bool.
 From TR Require Import Extracted model.FileRec proofs.FileRecProofs.
+(* constants and wiring read from the Go sources on every run *)
+From TR Require Import proofs.FactsDeps.
 Import ListNotations.
 Close Scope string_scope.
 Open Scope list_scope.
